@@ -422,6 +422,29 @@ func ruleNonEmptyCreate(c *Ctx) {
 				}
 			}
 		}
+		// the dictionary may come from a helper that creates it when the key is missing (ensureHashTable…): on the path
+		// that follows the creation in that helper the dictionary is the new, empty one
+		var hcall *ssa.Call
+		hidx := 0
+		if ex2, ok := recv.(*ssa.Extract); ok {
+			hcall, _ = ex2.Tuple.(*ssa.Call)
+			hidx = ex2.Index
+		} else if c2, ok := recv.(*ssa.Call); ok {
+			hcall = c2
+		}
+		if hcall != nil && !mayBeFresh {
+			if g := hcall.Call.StaticCallee(); g != nil && p.InPkg(g) {
+				for _, gb := range g.Blocks {
+					if ret, ok := gb.Instrs[len(gb.Instrs)-1].(*ssa.Return); ok && hidx < len(ret.Results) {
+						for _, leaf := range phiLeaves(ret.Results[hidx], map[ssa.Value]bool{}) {
+							if mm.freshDict(leaf) {
+								mayBeFresh = true
+							}
+						}
+					}
+				}
+			}
+		}
 		return mayBeFresh && a.Succs[0] == b // the "found" edge
 	}
 	sel := map[*MutSite]bool{}
@@ -529,7 +552,7 @@ func ruleFreshID(c *Ctx) {
 	}
 	n := 0
 	for _, fn := range c.SrcFuncs() {
-		if _, ex := m6Exempt[fnName(fn)]; ex {
+		if loaderExempt(fn) {
 			continue
 		}
 		k := 0
